@@ -66,6 +66,44 @@ class RandomBuilder(ConcreteBuilder):
         return super().case(name, n)
 
 
+def _interference_calls(contract, vals, stubs, rng, k=3):
+    from .replay import ConcreteBuilder, Materializer, install_stubs
+    from .verify import resolve_target
+    names = [n for n, v in vals.items() if isinstance(v, (bool, int))]
+    if not names:
+        return
+    undo = install_stubs(stubs)
+    try:
+        for name in rng.sample(names, min(k, len(names))):
+            v2 = dict(vals)
+            v = vals[name]
+            if isinstance(v, bool):
+                v2[name] = not v
+            else:
+                v2[name] = v + rng.choice([1, -1, 2 ** 8, rng.randrange(1, 2 ** 64)])
+            ctx = Ctx([])
+            CB = ConcreteBuilder(ctx, v2)
+            try:
+                args, kwargs, I = contract.inputs(CB)
+            except Exception:
+                continue
+            if not CB.ok:
+                continue
+            M = Materializer(ctx)
+            f = resolve_target(contract.target)
+            try:
+                rargs = [M.mat(a) for a in args]
+                rkw = {kk: M.mat(x) for kk, x in kwargs.items()}
+                if hasattr(contract, "run_real"):
+                    contract.run_real(f, rargs, rkw, I)
+                else:
+                    f(*rargs, **rkw)
+            except BaseException:
+                pass
+    finally:
+        undo()
+
+
 def bounded_contract(contract, seed, n=300, budget_s=20.0, prf_corners=True):
     rng = random.Random(seed * 7919 + hash(type(contract).__name__) % 1000)
     t0 = time.time()
@@ -90,7 +128,26 @@ def bounded_contract(contract, seed, n=300, budget_s=20.0, prf_corners=True):
             k = vals.get("self_k", 1)
             il = rng.choice([0, 1, U.N - 1, U.N, U.N + 1, 2 ** 256 - 1, (U.N - k) % U.N, rng.randrange(2 ** 256)])
             stubs = [["hmac512*", [], il.to_bytes(32, "big").hex()]]
-        r = replay_contract(contract, vals, stubs)
+        # interference probe: first call the real function on one-variable perturbations of the sample
+        # (fresh objects), so that state shared between calls (module / class-level caches keyed by a
+        # subset of the inputs) is poisoned before the call that is checked
+        try:
+            _interference_calls(contract, vals, stubs, rng)
+        except Exception:
+            pass
+        import signal
+
+        def _alarm(sig, frm):
+            raise TimeoutError("replay exceeded its time slice")
+        old = signal.signal(signal.SIGALRM, _alarm)
+        signal.alarm(15)
+        try:
+            r = replay_contract(contract, vals, stubs)
+        except TimeoutError:
+            r = dict(confirmed=None, detail="timeout")
+        finally:
+            signal.alarm(0)
+            signal.signal(signal.SIGALRM, old)
         if r.get("confirmed") is None:
             skipped += 1
             continue
